@@ -38,6 +38,23 @@ def run(ctx):
         ctx.violation("TrieTrace invariant %s false at trace line %s: checkpoint kind=%s seq=%s root=%s, %d ops since the previous checkpoint" % (
             v.violated, line, ev.get("kind"), ev.get("seq"), bytes(ev.get("root", [])).hex(), len(ev.get("ops", []))),
             ctx.save_replay("trace", [trace, meta]))
+    # list commitments (DeriveSha) of core/types
+    dtrace = os.path.join(ctx.work, "derive.ndjson")
+    rc2, out2 = vlib.go_test(ctx, "core/types", "TestVerifDeriveSha$", env={"VERIF_DERIVE_OUT": dtrace}, files=["derivesha_test.go"], timeout=1500)
+    m2 = re.search(r"VERIF-STAT derive lists=(\d+)", out2)
+    if rc2 != 0 or not m2:
+        raise vlib.Infra("DeriveSha driver failed (rc=%d):\n%s" % (rc2, out2[-2000:]))
+    v2 = vlib.validate_trace(ctx, FAM, "TrieTrace.tla", "TrieTrace.cfg", dtrace, name="trace_derive", heap="4g", timeout=1500)
+    devs = vlib.read_ndjson(dtrace)
+    ctx.evaluations += len(devs)
+    for e in devs:
+        ctx.signatures.add(("derive", e["n"]))
+    if v2.accepted:
+        ctx.traces_validated += 1
+    else:
+        ev = devs[v2.line - 1] if v2.line and v2.line <= len(devs) else {}
+        ctx.violation("TrieTrace invariant %s false at trace line %s: DeriveSha of a %s-item list = %s, trie of {rlp(i) -> item} = %s, single-item changes without effect on the root at %s" % (
+            v2.violated, v2.line, ev.get("n"), ev.get("derived"), ev.get("reference"), ev.get("blind")), ctx.save_replay("derive", [dtrace]))
     ctx.assumptions = ["keccak256(blob) = key for every dumped node, asserted by the driver with golang.org/x/crypto/sha3",
                        "proofs are not requested from an empty trie (it has no node to prove with)"]
     vlib.write_evidence(ctx, rule="TLC: every content over a 7-key universe with prefix keys x 2 values for the reference; Go: seeded sequences "
